@@ -146,7 +146,9 @@ Definition really_run (o : oid) (hix : nat) (h : handler) (n : nid) (nu : node_u
   | _ =>
     user_call ;;;
     emit (EvUpd o (hd_token h) (h_id (hd_fn h)) nu arg) ;;;
-    run_effects (default VUnit arg) (h_effs (hd_fn h))
+    (* handlers of the DSL write variables and read observers; the expert-dependency effects need the
+       engine's fuel and are not available here (they would end in OutOfFuel) *)
+    run_effects 0 (default VUnit arg) (h_effs (hd_fn h))
   end.
 
 (* OnUpdateHandler::run (node_update.rs:97) *)
@@ -196,6 +198,8 @@ Definition stabilise_start (fuel : nat) : M unit :=
    decide what each queued node will tell its handlers *)
 Definition stabilise_end_prepare : M unit :=
   modify (fun s => s <| stab_num := stab_num s + 1 |>) ;;;
+  (* only_in_debug.currently_running_node.take() *)
+  modify (fun s => s <| cur_running := None |>) ;;;
   (* set_during_stabilisation: `while let Some(var) = stack.pop()` *)
   s <- get ;;
   modify (fun s => s <| set_during := [] |>) ;;;
@@ -275,7 +279,7 @@ Definition init_state (max_height : Z) (dbg : bool) : state :=
         (replicate (Z.to_nat (max_height + 1)) []) (max_height + 1) 0
         (replicate (Z.to_nat (max_height + 1)) []) (max_height + 1) 0 0
         NotStabilising 0 [] [] [] [] [] [] STop [] []
-        0 0 0 0 0 0 0 0 dbg [] [] [] [] 0%nat None.
+        0 0 0 0 0 0 0 0 dbg [] [] [] [] [] [] [] None 0%nat None.
 
 (* ------------------------------------------------------------ histories *)
 Notation hnode := nat (only parsing).   (* index into the table of node handles *)
@@ -313,12 +317,25 @@ Inductive op :=
   | OpIsStable
   | OpStats
   | OpSetMaxHeight (n : Z)
+  | OpExpert (mode : Z)                            (* expert::Node::new: yields a node handle *)
+  | OpAddDep (e h : hnode) (slot : nat) (cb : bool)   (* slot := e.add_dependency(_with)(h), from top level *)
+  | OpRemoveDep (e : hnode) (slot : nat)
+  | OpMakeStale (e : hnode)
+  | OpInvalidateExpert (e : hnode)
   | OpMemoNew (f : bindfn)                         (* weak_memoize_fn at top level; outer operands are node handles *)
   | OpMemoCall (m : nat) (key : Z)                 (* call it from top level: yields a node handle *)
   | OpDropNode (n : hnode)                     (* drop the program's handle (Incr clone) *)
   | OpDropVar (x : vid)                        (* drop a public::Var handle *)
   | OpDropExports                              (* drop every node handle that bind closures handed out *)
   | OpCrashAt (k : nat).                       (* arm the panic injection: k-th user invocation from now *)
+
+(* the expert API's graph surgery (expert.rs).  In debug builds make_stale, remove_dependency and
+   invalidate refuse to run outside a stabilisation; release builds perform them on the spot *)
+Definition expert_op (o : op) : bool :=
+  match o with
+  | OpAddDep _ _ _ _ | OpRemoveDep _ _ | OpMakeStale _ | OpInvalidateExpert _ => true
+  | _ => false
+  end.
 
 Inductive out :=
   | OutUnit
@@ -482,6 +499,14 @@ Definition step (fuel : nat) (st : istate) (o : op) : M (istate * out) :=
   | OpSetMaxHeight n => set_max_height_allowed n ;;; ret (st, OutUnit)
   | OpMemoNew f => s <- get ;; memo_new (handles_bindfn (handles s) f) ;;; ret (st, OutUnit)
   | OpMemoCall m key => mk (memo_call fuel m key)
+  | OpExpert mode =>
+      mk (s <- get ;;
+          modify (fun s => s <| experts := experts s ++ [Expert mode [] false 0 true] |>) ;;;
+          create_node (KExpert (length (experts s))))
+  | OpAddDep e h sl cb => run_effect fuel VUnit (EAddDep e h sl cb) ;;; ret (st, OutUnit)
+  | OpRemoveDep e sl => run_effect fuel VUnit (ERemoveDep e sl) ;;; ret (st, OutUnit)
+  | OpMakeStale e => run_effect fuel VUnit (EMakeStale e) ;;; ret (st, OutUnit)
+  | OpInvalidateExpert e => run_effect fuel VUnit (EInvalidateExpert e) ;;; ret (st, OutUnit)
   | OpDropNode h =>
       modify (fun s => s <| handles := <[h := None]> (handles s) |>) ;;; ret (st, OutUnit)
   | OpDropVar x =>
